@@ -477,7 +477,10 @@ int main(int argc, char** argv) {
     vh::init(argc, argv);
     vh::Rng r(vh::args().xseed());
     g_nv = vh::args().geti("vcpus", r.pick({1, 2, 4}));
-    { vh::Rng rj(vh::mix(vh::args().xseed(), 4242)); g_nj = vh::args().geti("joined", rj.pick({0, 0, 1, 1, 2})); }
+    { vh::Rng rj(vh::mix(vh::args().xseed(), 4242)); g_nj = vh::args().geti("joined", rj.pick({0, 0, 1, 1, 2}));
+      // a pool without workers of its own: only the vCPUs that joined serve it, and only the deregistration wait of
+      // the destructor stands between it and their unfinished tasks
+      if (g_nj > 0 && !vh::args().has("vcpus") && rj.chance(1, 3)) g_nv = 0; }
     int m = r.below(6);
     g_mode = vh::args().geti("mode", m < 2 ? -1 : m < 4 ? 0 : r.pick({1, 2, 3, 8, 32}));
     g_ring = vh::args().geti("ring", r.pick({1, 2, 4, 64}));
